@@ -126,10 +126,16 @@ class ImplRunner:
         child.close()
         self.conn = parent
 
-    def call(self, name, args, timeout):
+    def submit(self, name, args):
         if self.proc is None or not self.proc.is_alive():
             self._start()
         self.conn.send((name, args))
+
+    def call(self, name, args, timeout):
+        self.submit(name, args)
+        return self.collect(timeout)
+
+    def collect(self, timeout):
         try:
             ready = self.conn.poll(timeout)
         except (EOFError, OSError):
